@@ -1,4 +1,5 @@
 //! Native reproducer for finding F-wcfi-3 (batch wcfi, property C14; part of DESIGN F8 "write_nop align - 1"):
+//! STATUS: FIXED in /repo 9595d4a (address size validated => Err(UnsupportedWordSize)); exits 0 from that commit on.
 //! `CommonInformationEntry::write` never validates `encoding.address_size` (a public field of `Encoding`) before it
 //! passes it to `write_nop(w, len, align)`, which computes `align - 1` and `debug_assert_eq!(align & (align - 1), 0)`.
 //!   address_size = 0: `align - 1` panics "attempt to subtract with overflow" (debug) / pads with (usize::MAX & ..) nops (release)
